@@ -98,7 +98,7 @@ def emission_checks(ctx, te):
     val = te.eval(st[0].value, {"in_list": [x1, x2]}, f)
     ok = isinstance(val, CNFV) and [repr(c) for c in val.clauses] == ["(~x1)", "(~x2)"]
     ctx.check(ok, R2, f, "zero_out %r" % (val,), "zero_out([x1, x2]) = unit clauses ~x1, ~x2", "zero_out builds %r" % (val,))
-    ctx.check(Facts(f).exprs() == ["self.prepend(CNF([[~(var)] for var in in_list]))"], R2, f, "zero_out emits", "the units are prepended",
+    ctx.check(Facts(f).exprs() == ["self.prepend(CNF([[~(_b0)] for _b0 in in_list]))"], R2, f, "zero_out emits", "the units are prepended",
               "zero_out no longer prepends its unit clauses")
     for name, want in (("set_to_zero", "self.prepend(~(variable))"), ("set_to_one", "self.prepend(variable)")):
         f = ctx.fn("cnf:CNF." + name)
@@ -108,7 +108,7 @@ def emission_checks(ctx, te):
     ctx.check(F.augs("self._num_vars") == ["+= 1"] and F.returns() == ["Var(self._num_vars)"], R2, f, "get_fresh",
               "fresh variables are numbered consecutively above everything allocated so far", "get_fresh changed: %s %s" % (F.augs("self._num_vars"), F.returns()))
     f = ctx.fn("cnf:CNF.get_n_fresh")
-    fact(ctx, R2, f, "get_n_fresh", Facts(f).returns(), ["[self.get_fresh() for _ in range(n)]"], "n consecutive fresh variables, in order")
+    fact(ctx, R2, f, "get_n_fresh", Facts(f).returns(), ["[self.get_fresh() for _b0 in range(n)]"], "n consecutive fresh variables, in order")
     f = ctx.fn("cnf:Var.__invert__")
     fact(ctx, R2, f, "Var.__invert__", Facts(f).returns(), ["Var(-self._val)"], "negation flips the sign of the DIMACS literal")
 
@@ -147,7 +147,7 @@ def wiring_checks(ctx):
     pad = "self.get_n_fresh((2)**(math.ceil(math.log(len(in_list), 2))) - len(in_list))"
     fact(ctx, R3, f, "pop_count padding", F.assigns("aux_list"), [pad], "pads the inputs to the next power of two with fresh variables")
     fact(ctx, R3, f, "pop_count zero-fix", F.exprs()[-1:], ["self.zero_out(%s)" % pad], "every padding variable is fixed to 0")
-    fact(ctx, R3, f, "pop_count start", F.returns(), ["self._pop_count_layer([[x] for x in chain(in_list, %s)], saturate_at)" % pad],
+    fact(ctx, R3, f, "pop_count start", F.returns(), ["self._pop_count_layer([[_b0] for _b0 in chain(in_list, %s)], saturate_at)" % pad],
          "one-bit numbers for all inputs and paddings go into the adder tree")
     ctx.check(F.tests()[:1] == ["not(in_list)"] and any("ValueError" in r for r in F.raises()), R3, f, "pop_count empty", "an empty input list is refused",
               "pop_count no longer refuses an empty list")
